@@ -1,1 +1,4 @@
 import XPathV.Theorems.C02
+#print axioms XPathV.Theorems.C02.reset_table_ok
+#print axioms XPathV.Theorems.C02.reset_forwarded
+#print axioms XPathV.Theorems.C02.verdict_is_local
